@@ -5,6 +5,7 @@ package main
 // real ones would be.
 
 import (
+	"bufio"
 	"crypto/ecdsa"
 	"crypto/elliptic"
 	"crypto/rand"
@@ -17,6 +18,7 @@ import (
 	"fmt"
 	"io"
 	"math/big"
+	"net"
 	"net/http"
 	"net/http/httptest"
 	"regexp"
@@ -392,4 +394,79 @@ func (t *verifU2FToken) WebAuthnAssertion(appID, origin, challenge string) []byt
 		"clientExtensionResults": map[string]interface{}{"appid": true},
 	})
 	return out
+}
+
+// ------------------------------------------------------------------ fake SMTP
+
+// verifFakeSMTP is the operator's mail relay: it accepts any message and keeps it.
+type verifFakeSMTP struct {
+	L    net.Listener
+	mu   sync.Mutex
+	Msgs []string
+}
+
+func newVerifFakeSMTP() (*verifFakeSMTP, error) {
+	l, err := net.Listen("tcp", "127.0.0.1:0")
+	if err != nil {
+		return nil, err
+	}
+	s := &verifFakeSMTP{L: l}
+	go func() {
+		for {
+			c, err := l.Accept()
+			if err != nil {
+				return
+			}
+			go s.serve(c)
+		}
+	}()
+	return s, nil
+}
+
+func (s *verifFakeSMTP) Addr() string { return s.L.Addr().String() }
+
+func (s *verifFakeSMTP) Count() int {
+	s.mu.Lock()
+	defer s.mu.Unlock()
+	return len(s.Msgs)
+}
+
+func (s *verifFakeSMTP) serve(c net.Conn) {
+	defer c.Close()
+	c.SetDeadline(time.Now().Add(20 * time.Second))
+	r := bufio.NewReader(c)
+	fmt.Fprintf(c, "220 verif ESMTP\r\n")
+	for {
+		line, err := r.ReadString('\n')
+		if err != nil {
+			return
+		}
+		cmd := strings.ToUpper(strings.TrimSpace(line))
+		switch {
+		case strings.HasPrefix(cmd, "EHLO"), strings.HasPrefix(cmd, "HELO"):
+			fmt.Fprintf(c, "250 verif\r\n")
+		case strings.HasPrefix(cmd, "DATA"):
+			fmt.Fprintf(c, "354 go\r\n")
+			var b strings.Builder
+			for {
+				l2, err := r.ReadString('\n')
+				if err != nil {
+					return
+				}
+				if strings.TrimRight(l2, "\r\n") == "." {
+					break
+				}
+				b.WriteString(l2)
+			}
+			s.mu.Lock()
+			s.Msgs = append(s.Msgs, b.String())
+			s.mu.Unlock()
+			fmt.Fprintf(c, "250 queued\r\n")
+		case strings.HasPrefix(cmd, "QUIT"):
+			fmt.Fprintf(c, "221 bye\r\n")
+			return
+		default:
+			fmt.Fprintf(c, "250 ok\r\n")
+		}
+	}
 }
